@@ -420,6 +420,12 @@ def r11(ctx, rep):
               "between them belongs to the name", file=f["file"], line=bt[0]["l"] if bt else f["l"], fn=f["path"])
 
 
+def r12(ctx, rep):
+    # generated names (`_expr_N`, `table_N`) differ among themselves because the counter behind them advances on every call
+    import C01
+    rep.borrowed(C01.r18, ctx, "C09.R12", "two generated names are never equal: the counter of NameGenerator (an IdGenerator) hands out its value and advances", only=r"^gen:")
+
+
 def run(ctx, rep):
-    for r in (r1, r2, r3, r4, r5, r6, r7, r8, r9, r10, r11):
+    for r in (r1, r2, r3, r4, r5, r6, r7, r8, r9, r10, r11, r12):
         rep.guard(r, ctx)
